@@ -84,9 +84,6 @@ func resolveTypeAlias(typeName string, index map[string]*ast.TypeDef) (string, e
 		if !ok {
 			return name, nil
 		}
-		if err := checkIdentRef(alias.Name().Text()); err != nil {
-			return "", err
-		}
 		name = getTypeName(localIdent(alias.Name()))
 		if track[name] {
 			names := make([]string, 0, len(track))
@@ -563,9 +560,6 @@ func (gen *generator) irPackedStructType(t types.Type, old *ast.PackedStructType
 func (gen *generator) irNamedType(t types.Type, old *ast.NamedType) (types.Type, error) {
 	// TODO: make use of t?
 	// Resolve named type.
-	if err := checkIdentRef(old.Name().Text()); err != nil {
-		return nil, err
-	}
 	ident := localIdent(old.Name())
 	name := getTypeName(ident)
 	typ, ok := gen.new.typeDefs[name]
